@@ -11,6 +11,7 @@
      then verify (Fcrypt/CheckPasswd and GenPasswd/CheckPasswd), the empty hash verifies nothing;
    - theorems over ALL table entries of the regenerated tables: frozen copy, SPtrans = P after S, skb = PC2 pieces,
      rotation schedule, cov_2char = alphabet, con_salt = its inverse;
+   - theorems for ALL inputs about the table-free networks: the head of desSetKey is PC1, the tail of body is FP;
    - C02_equals_crypt3_partial: whole-function equality with crypt(3) is NOT proved (see the comment there);
    - C02_reject_partial: "rejected for any differing password" CANNOT be proved (it would say that DES has no
      colliding keys here); it is exercised by differential testing only. *)
@@ -102,11 +103,29 @@ Theorem C02_skb_is_PC2 : forall k x, (k < 8)%nat -> 0 <= x < 64 ->
 Proof. exact skb_is_PC2. Qed.
 Print Assumptions C02_skb_is_PC2.
 
+(* The PermOp/HPermOp network at the head of desSetKey is PC1, for every 8-byte key block: bit j < 28 of the word c
+   (d) is FIPS key bit PC1[j] (PC1[28+j]); bits 28..31 are zero. Proved by symbolic evaluation (Proofs/C02_Sym.v). *)
+Theorem C02_setkey_head_is_PC1 : forall key, length key = 8%nat -> bytes_ok key = true -> forall j, 0 <= j < 32 ->
+  Z.testbit (fst (pc1_words key)) j = (if j <? 28 then key_bit key (Z.of_nat (nth (Z.to_nat j) PC1 O)) else false) /\
+  Z.testbit (snd (pc1_words key)) j = (if j <? 28 then key_bit key (Z.of_nat (nth (Z.to_nat (28 + j)) PC1 O)) else false).
+Proof. exact setkey_head_is_PC1. Qed.
+Print Assumptions C02_setkey_head_is_PC1.
+
+(* The network at the tail of body is FP, for all 32-bit l, r: bit j of output word w is FIPS bit FP[out_n w j] of the
+   pre-output block l ++ r held in fcrypt's rotated representation (block_bit). *)
+Theorem C02_body_tail_is_FP : forall l r, 0 <= l < 2 ^ 32 -> 0 <= r < 2 ^ 32 -> forall j, 0 <= j < 32 ->
+  Z.testbit (fst (final_perm l r)) j = block_bit l r (Z.of_nat (nth (Z.to_nat (out_n 0 j)) FP O)) /\
+  Z.testbit (snd (final_perm l r)) j = block_bit l r (Z.of_nat (nth (Z.to_nat (out_n 1 j)) FP O)).
+Proof. exact body_tail_is_FP. Qed.
+Print Assumptions C02_body_tail_is_FP.
+
 (* PARTIAL. Full claim: forall pw and alphabet salts, fcrypt pw salt = Ok (h ++ [0]) with crypt pw salt = Some h.
    Proved conjuncts: same key block and same salt bits go in; SPtrans, skb, shifts2, cov_2char are the FIPS tables;
-   the equality holds on VECTORS (kernel evaluation). NOT proved: that the PermOp/HPermOp networks are PC1, IP, FP and
-   that the shift-and-mask E-box with E0/E1 is the salted E — validated on every case of every run by the 4-way
-   correspondence Go <-> model <-> DesSpec <-> libcrypt (checks/C02.py). *)
+   the head of desSetKey is PC1 and the tail of body is FP; the equality holds on VECTORS (kernel evaluation).
+   NOT proved: that the 16 rotate-and-lookup rounds of desSetKey lay the FIPS round keys out as dEncrypt expects, that
+   the shift-and-mask E-box with E0/E1 is the salted E, that the 25 x 16 dEncrypt rounds are Feistel rounds in the
+   rotated representation, and that the output loop is the base-64 grouping — validated on every case of every run by
+   the 4-way correspondence Go <-> model <-> DesSpec <-> libcrypt (checks/C02.py). *)
 Theorem C02_equals_crypt3_partial :
   (forall pw s0 s1 i0 i1, index_of s0 ALPHABET O = Some i0 -> index_of s1 ALPHABET O = Some i1 ->
      keyblock pw = crypt_key pw /\
@@ -116,6 +135,12 @@ Theorem C02_equals_crypt3_partial :
   (forall k x, (k < 8)%nat -> 0 <= x < 64 -> skb_spec k x = if (k <? 4)%nat then (tab skb k x, 0) else (0, tab skb k x)) /\
   map (fun b => Z.to_nat (1 + b)) shifts2 = SHIFTS /\
   cov_2char = ALPHABET /\
+  (forall key, length key = 8%nat -> bytes_ok key = true -> forall j, 0 <= j < 32 ->
+     Z.testbit (fst (pc1_words key)) j = (if j <? 28 then key_bit key (Z.of_nat (nth (Z.to_nat j) PC1 O)) else false) /\
+     Z.testbit (snd (pc1_words key)) j = (if j <? 28 then key_bit key (Z.of_nat (nth (Z.to_nat (28 + j)) PC1 O)) else false)) /\
+  (forall l r, 0 <= l < 2 ^ 32 -> 0 <= r < 2 ^ 32 -> forall j, 0 <= j < 32 ->
+     Z.testbit (fst (final_perm l r)) j = block_bit l r (Z.of_nat (nth (Z.to_nat (out_n 0 j)) FP O)) /\
+     Z.testbit (snd (final_perm l r)) j = block_bit l r (Z.of_nat (nth (Z.to_nat (out_n 1 j)) FP O))) /\
   forallb agree VECTORS = true.
 Proof. exact equals_crypt3_partial. Qed.
 Print Assumptions C02_equals_crypt3_partial.
